@@ -384,6 +384,9 @@ func init() {
 				if i < 3 {
 					kind = 7 + i // every run has a long failure run, a preset case and a multi-address case
 				}
+				if i == 3 {
+					kind = 10 // every run has a success that lands while the reconnector is paused
+				}
 				if kind >= 7 {
 					maxAtt = 0
 				}
@@ -532,6 +535,23 @@ func init() {
 					p("wait")
 					p("release ok")
 					p("wait")
+					p("schedule")
+					p("wait")
+					p("release fail")
+					p("wait")
+				case 10: // an in-flight attempt SUCCEEDS while paused: the episode is over, the next one starts from the initial delay
+					p("schedule")
+					p("wait")
+					p("release fail")
+					p("wait")
+					p("release fail")
+					p("wait")
+					p("pause")
+					p("release ok")
+					p("resume")
+					if r.chance(50) {
+						p("wait")
+					}
 					p("schedule")
 					p("wait")
 					p("release fail")
